@@ -24,7 +24,7 @@ both are no-ops while the listener is idle (the buffers persist over a reconnect
 equal the one before it); a drop that aborts a flush has no model step, the comparison stops there and the rest of the
 run is judged by the oracle alone.
 
-After every step `gateway._message_buffer.set_messages` (keys in order, payloads, object identity),
+After every step the `set_messages` of the gateway's sleep buffer (`lib.sleep_buffer`) (keys in order, payloads, object identity),
 the wire (lines in order, with the object each line was encoded from) and the listener's position are
 compared with the model.  After the schedule the node wakes once more with nothing else running, and
 the property's three clauses are evaluated on the real trace — in Python, without the model.
@@ -439,7 +439,7 @@ class Run:
 
     def buf(self):
         out = []
-        for key, m in self.gw._message_buffer.set_messages.items():
+        for key, m in lib.sleep_buffer(self.gw).set_messages.items():
             out.append((tuple(key), m.payload, self.serial.get(id(m), -1)))
         return out
 
